@@ -141,7 +141,7 @@ def run(ctx):
             o = vlib.run_lines(exes[b], [ln], timeout=1800)[0]; ctx.count((ln, b))
             v = o.split()
             if o.startswith('CRASH') or len(v) < 2 or int(v[0]) != 0:
-                ctx.report('decomp-concurrent', '%s build, (l,Bgbit)=(%d,%d): %s' % (b, l, B, ('%s of %s decompositions made by 4 threads that share one TGswParams object differ from the sequential result' % (v[0], v[1])) if len(v) >= 2 and not o.startswith('CRASH') else 'the run died: ' + o[:80]),
+                ctx.report('decomp-concurrent', '%s build, (l,Bgbit)=(%d,%d): %s' % (b, l, B, ('%s of %s decompositions made by 4 threads that share one TGswParams object (incl. results in the own malloc arena of the thread, far from the input) differ from the sequential result' % (v[0], v[1])) if len(v) >= 2 and not o.startswith('CRASH') else 'the run died: ' + o[:80]),
                            {'case': ln, 'build': b, 'impl': o[:200]})
     ctx.cov['input_distribution'] = {'layouts': LAYOUTS, 'N': [8, 16, 1024, 3, 1, 256, 2048, 4096], 'builds': ['optim (AVX2 asm)', 'debug (scalar)']}
     for c in cases[:: max(1, len(cases) // 8)]: ctx.sample({'case': c[0][:160], 'build': c[1], 'impl': impl[cases.index(c)][:160]})
